@@ -90,7 +90,7 @@ static bool runOne(const sim::Plan &plan, gs::Env &env, sim::RunResult &res) {
         mkdir(g_dir.c_str(), 0700);
         env.dirty = false;
     }
-    alarm(BGSIM_SANITIZED ? 300 : 120); // watchdog: a run that hangs ends with SIGALRM and is reported as such
+    alarm(BGSIM_SANITIZED ? 90 : 45); // watchdog: a run that hangs ends with SIGALRM and is reported as such
     f(plan, res, env);
     alarm(0);
     return !res.v.set;
